@@ -189,6 +189,43 @@ def rule_eq1(ctx: Ctx, files=None, min_instances=1) -> RuleResult:
     return r
 
 
+def rule_dur1(ctx: Ctx) -> RuleResult:
+    """DUR-1: time_split compares durations as durations.  `.seconds` / `.microseconds` / `.days` of a timedelta are the fields of its
+    normalised (days, seconds, microseconds) triple, not the length of the interval: timedelta(days=1).seconds == 0, and
+    timedelta(seconds=2.5).seconds == 2.  A comparison or a test on one field alone orders the timeouts wrongly as soon as one of them
+    is a day or longer, negative, or differs from the other below the second."""
+    r = RuleResult("DUR-1", "time_split orders and tests durations as timedelta values (or total_seconds()), never through one field of the "
+                            "normalised triple (.seconds / .microseconds / .days)")
+    m = ctx.program.by_relpath.get("rxsci/data/time_split.py")
+    if m is None:
+        raise AnalysisError("rxsci/data/time_split.py not found")
+    r.instances += 1
+    FIELDS = ("seconds", "microseconds", "days")
+    parents = {}
+    for n in ast.walk(m.tree):
+        for c in ast.iter_child_nodes(n):
+            parents[id(c)] = n
+    for n in ast.walk(m.tree):
+        if not (isinstance(n, ast.Attribute) and n.attr in FIELDS and isinstance(n.ctx, ast.Load)):
+            continue
+        # the whole expression the field sits in: all three fields of the same value together are total_seconds() written out
+        top = n
+        while id(top) in parents and isinstance(parents[id(top)], ast.expr):
+            top = parents[id(top)]
+        base = ast.dump(n.value)
+        have = {x.attr for x in ast.walk(top) if isinstance(x, ast.Attribute) and x.attr in FIELDS and ast.dump(x.value) == base}
+        fn = m.enclosing_function(n)
+        qn = m.scopes[fn].qualname if fn in m.scopes else "<module>"
+        r.ob(have == set(FIELDS), lambda n=n, top=top, qn=qn: Finding(
+            "DUR-1", "rxsci/data/time_split.py::%s{.%s}" % (qn, n.attr), m.where(n),
+            "'%s' reads the field .%s of a duration: it is one component of the normalised (days, seconds, microseconds) triple -- 0 for "
+            "timedelta(days=1), 2 for timedelta(seconds=2.5) -- so '%s' does not order the two durations; compare the timedelta values "
+            "themselves (or total_seconds())" % (ast.unparse(n), n.attr, ast.unparse(top)[:70])))
+    r.ob(True)
+    r.require_instances(1)
+    return r
+
+
 def rule_eq2(ctx: Ctx, files=None) -> RuleResult:
     """EQ-2, the converse of EQ-1: a marker OBJECT (STATE_NOTSET, a private sentinel) is told apart by identity.  `value == MARKER` runs
     the __eq__ of whatever the slot holds -- user data: a numpy array answers with an array (the `if` raises), a catch-all __eq__
